@@ -21,10 +21,11 @@ const (
 	tkNXDomain
 	tkRejectDomain
 	tkRejectIP
+	tkFakeErrno // only with the harness-owned outbound client (fake_test.go): the onward dial fails with a chosen errno
 	nTargetKinds
 )
 
-var targetKindNames = [nTargetKinds]string{"ok-ip", "ok-domain", "refused", "unreachable", "nxdomain", "router-reject-domain", "router-reject-ip"}
+var targetKindNames = [nTargetKinds]string{"ok-ip", "ok-domain", "refused", "unreachable", "nxdomain", "router-reject-domain", "router-reject-ip", "fake-errno"}
 
 // when the client's first bytes (or, with nothing to send, its FIN) leave, relative to the end of the handshake
 const (
@@ -86,6 +87,8 @@ type connPlan struct {
 	// handshake: 0 = right behind the first chunk, else after the wait deadline has long passed
 	// (T+50ms, 2T, 4T): the connection is idle-open in between.
 	RestAt int `json:"rest_at,omitempty"`
+	// tkFakeErrno only: the errno the harness-owned outbound client fails with.
+	Errno string `json:"errno,omitempty"`
 	// cmAbort only: who resets, and whether it waits until both sides have read everything
 	// (then the statistics must be exact) or resets as soon as the client has seen the first
 	// downlink byte and its own writes are done (bytes may be lost in flight).
@@ -122,6 +125,10 @@ type casePlan struct {
 	BackTMs         int  `json:"back_t_ms,omitempty"`
 	BackDisableWait bool `json:"back_disable_wait,omitempty"`
 	ChainAuth       bool `json:"chain_auth,omitempty"`
+
+	// Client == "fake": the routed client is the harness-owned outbound client; FakeNative is what
+	// it reports as NativeInitialPayload.
+	FakeNative bool `json:"fake_native,omitempty"`
 
 	Conns []connPlan `json:"conns"`
 }
@@ -253,6 +260,8 @@ func (c casePlan) clientNative() bool {
 		return c.DialerTFO
 	case "none", "ss2022":
 		return true
+	case "fake":
+		return c.FakeNative
 	}
 	return false
 }
@@ -275,7 +284,7 @@ func (c casePlan) failureVisible(target int) bool {
 		return true
 	}
 	switch c.Client {
-	case "direct":
+	case "direct", "fake":
 		return true
 	case "socks5", "http":
 		// the upstream proxy is the same relay code: if its own initial-payload wait applies it
@@ -288,7 +297,7 @@ func (c casePlan) failureVisible(target int) bool {
 // backWaitApplies: the rule of waitApplies for the second instance (its client is always the
 // direct client with DialerTFO; an ss2022 back server carries payload natively).
 func (c casePlan) backWaitApplies() bool {
-	return c.chained() && c.Client != "ss2022" && !c.BackDisableWait && c.DialerTFO
+	return c.chained() && c.Client != "ss2022" && c.Client != "fake" && !c.BackDisableWait && c.DialerTFO
 }
 
 type expectation struct {
@@ -324,6 +333,11 @@ func (c casePlan) expect(p connPlan, unreachableCode int) expectation {
 	default:
 		e.replyFail = c.hasReply()
 		e.why = "onward connection fails before any reply"
+		if p.Target == tkFakeErrno {
+			// conn/dialresult.go: "Based on Linux errno values"; RFC 1928 REP names. Errnos without
+			// a REP of their own (ECONNRESET, ECONNABORTED, ETIMEDOUT, ...) need any failure REP.
+			e.socks5Code = map[string]int{"ECONNREFUSED": 5, "ENETUNREACH": 3, "EHOSTUNREACH": 4, "EACCES": 2}[p.Errno]
+		}
 		if c.Client == "direct" {
 			switch p.Target {
 			case tkRefused:
